@@ -11,7 +11,7 @@
 From Coq Require Import List NArith Bool Arith Lia.
 From Verif.Common Require Import Cas.
 From Verif.C19 Require Import Model.
-From Verif.C20 Require Import Model Spec Lemmas Proofs Main Cap.
+From Verif.C20 Require Import Model Spec Lemmas Proofs Main Cap CapSeq.
 Import ListNotations.
 Open Scope N_scope.
 
@@ -149,19 +149,43 @@ Theorem c20_block_cap_fixed_witness :
 Proof. exact cap_fixed_witness. Qed.
 Print Assumptions c20_block_cap_fixed_witness.
 
-(* The part of the cap that is proved (both variants, every answer of the datastore, hence every interleaving):
-   AutoAssign's loop, once numBlocksOwned has reached the effective limit, never asks the datastore to create a block
-   affinity (`nac`), so it can only use blocks the host already holds or fail with the block-limit error.
-   numBlocksOwned starts from the host's affine blocks in the usable pools (g_capfix = false, pinned code) or from
-   every block that stays affine to the host (g_capfix = true), and grows by one per newly claimed block.
-   NOT proved: the global bound "affinities of the host in the datastore <= max(cap, before)" for sequential
-   histories of the fixed variant; it needs the exact answers of the store along claim_outer's retry loop (a failed
-   claim that leaves its pending affinity behind is only excluded when nobody interferes).  That bound is checked by
-   the oracle on every implementation run (ok_cap_global). *)
-Theorem c20_block_cap_partial : forall cf fuel ips rem owned maxb num h tag host node ps,
+(* Both variants, every answer of the datastore (hence every interleaving): AutoAssign's loop, once numBlocksOwned
+   has reached the effective limit, never asks the datastore to create a block affinity (`nac`); it can only use
+   blocks the host already holds or fail with the block-limit error.  numBlocksOwned starts from the host's affine
+   blocks in the usable pools (g_capfix = false, the code as found) or from every block that stays affine to the
+   host (g_capfix = true), and grows by one per newly claimed block. *)
+Theorem c20_at_cap_creates_no_affinity : forall cf fuel ips rem owned maxb num h tag host node ps,
   (maxb <= owned)%nat -> nac (aa_loop cf fuel ips rem owned maxb num h tag host node ps).
 Proof. exact aa_loop_at_cap_creates_no_affinity. Qed.
-Print Assumptions c20_block_cap_partial.
+Print Assumptions c20_at_cap_creates_no_affinity.
+
+(* The positive cap for the REPAIRED variant (g_capfix = true), on the concrete datastore semantics, one client:
+   from ANY datastore with distinct keys, after AutoAssign the host (its "host:" or "virtual:" identity) has at most
+   max(effective limit, what it had before) block affinities; by c20_effective_cap the limit is the specification's
+   cap.  By induction over a history: a host that starts below the cap never exceeds it.
+   PARTIAL because of two hypotheses:
+     (a) every enabled pool's node selector matches the node, so prepareAffinityBlocksForHost releases nothing and
+         numBlocksOwned starts at exactly the number of the host's affinities (otherwise one also needs: each release
+         counted by the repaired code removes one affinity that was listed);
+     (b) g_retries = 1 (every CAS loop gives up after one attempt).  Used in one lemma only (CapSeq.claim_outer_bound:
+         findOrClaimBlock's claim loop adds at most one affinity).  For the real bound 100 the missing lemma is:
+         "when claim_inner answers try-another-block, the pending affinity it created is gone again", which needs
+         "a single client never receives RConflict from Cas.exec" (the delete's answer is ignored on the
+         claim-conflict path and a run of EConflict answers exhausts the inner retry loop).
+   The same bound, without (a) and (b), is checked by the oracle (ok_cap_global) on every implementation run. *)
+Theorem c20_block_cap_fixed_partial : forall cf q s,
+  g_capfix cf = true -> g_retries cf = 1%nat ->
+  (forall p, In p (enabled_pools cf) -> selects_node cf q p = true) ->
+  NoDup (Cas.keys s) ->
+  (Nh (host_of q) (fst (run s (auto_assign cf q))) <= Nat.max (eff_maxblocks cf q) (Nh (host_of q) s))%nat.
+Proof. exact block_cap_fixed. Qed.
+Print Assumptions c20_block_cap_fixed_partial.
+
+Example c20_block_cap_fixed_hyps_inhabited :
+  g_capfix cap_cfg1 = true /\ g_retries cap_cfg1 = 1%nat /\
+  forallb (fun p => selects_node cap_cfg1 cap_req1 p) (enabled_pools cap_cfg1) = true /\
+  snd (run init_store (auto_assign cap_cfg1 cap_req1)) = RIPs [(167772416, 30%nat)] ENone.
+Proof. exact cap_fixed_hyps_inhabited. Qed.
 
 (* A fact about the code, not a defect: when the request names pools, the node selector is ignored (determinePools:
    "for backwards compatibility").  Node 0 has no labels, the pool requires has(k0): without requested pools the
